@@ -66,6 +66,94 @@ def oracle (name : String) (ts : List String) : Option Bool :=
       pure (decide (CropSpec ⟨3, nm⟩ inside m o))
   | _ => none
 
+/-! ### value post-conditions of Props/C03Values evaluated on the implementation's output (Float, relative
+tolerance 1e-9 of the magnitudes involved; a case with a non-finite value is skipped = `true`) -/
+
+def fin (x : Float) : Bool := x == x && x.abs < 1e150
+def finV (v : V3 Float) : Bool := fin v.x && fin v.y && fin v.z
+def mag (v : V3 Float) : Float := max v.x.abs (max v.y.abs v.z.abs)
+def closeS (a b scale : Float) : Bool := (a - b).abs ≤ 1e-9 * max 1e-300 scale
+def closeV (a b : V3 Float) (scale : Float) : Bool := closeS a.x b.x scale && closeS a.y b.y scale && closeS a.z b.z scale
+
+def v3sOf (m : MV) (name : String) : List (V3 Float) :=
+  match m.attr? ⟨3, name⟩ with
+  | some d => d.filterMap v3?
+  | none => []
+
+def pairs {β : Type} (l : List β) : List (β × β) := l.zip l.tail
+
+/-- every (input, output) vertex pair and every consecutive pair of pairs -/
+def forallIO (ins outs : List (V3 Float)) (p1 : V3 Float → V3 Float → Bool)
+    (p2 : V3 Float → V3 Float → V3 Float → V3 Float → Bool) : Bool :=
+  ins.length == outs.length &&
+  (ins.zip outs).all (fun io => !(finV io.1 && finV io.2) || p1 io.1 io.2) &&
+  (pairs (ins.zip outs)).all (fun ab =>
+    !(finV ab.1.1 && finV ab.1.2 && finV ab.2.1 && finV ab.2.2) || p2 ab.1.1 ab.1.2 ab.2.1 ab.2.2)
+
+def dot (a b : V3 Float) : Float := a.Dot b
+
+def postOracle (args : List String) : Option Bool :=
+  match args with
+  | "translate" :: ts => do
+      let (name, ts) ← pTok ts; let (t, ts) ← pV3 ts
+      let (m, ts) ← pMesh ts; let (o, _) ← pMesh ts
+      if !finV t then pure true else
+      pure (forallIO (v3sOf m name) (v3sOf o name)
+        (fun i o' => closeV (o'.Sub i) t (mag i + mag t))                                  -- moved by exactly t
+        (fun i1 o1 i2 o2 => closeV (o1.Sub o2) (i1.Sub i2) (mag i1 + mag i2 + mag t)))       -- differences unchanged
+  | "scale" :: ts => do
+      let (name, ts) ← pTok ts; let (c, ts) ← pV3 ts; let (a, ts) ← pV3 ts
+      let (m, ts) ← pMesh ts; let (o, _) ← pMesh ts
+      if !(finV c && finV a) then pure true else
+      pure (forallIO (v3sOf m name) (v3sOf o name)
+        (fun i o' => closeV (o'.Sub c) ((i.Sub c).MultByVector a) ((mag i + mag c) * max 1 (mag a)))
+        (fun _ _ _ _ => true))
+  | "meshscale" :: ts => do
+      let (a, ts) ← pV3 ts
+      let (m, ts) ← pMesh ts; let (o, _) ← pMesh ts
+      if !finV a then pure true else
+      pure (forallIO (v3sOf m "Position") (v3sOf o "Position")
+        (fun i o' => closeV o' (i.MultByVector a) (mag i * max 1 (mag a))) (fun _ _ _ _ => true))
+  | "rotate" :: ts => do
+      let (name, ts) ← pTok ts; let (qv, ts) ← pV3 ts; let (qw, ts) ← pFloat ts
+      let (m, ts) ← pMesh ts; let (o, _) ← pMesh ts
+      let n := dot qv qv + qw * qw
+      if !(fin n) then pure true else
+      pure (forallIO (v3sOf m name) (v3sOf o name)
+        (fun i o' => closeS (dot o' o') (n * n * dot i i) (n * n * dot i i))               -- |q|⁴·|v|²
+        (fun i1 o1 i2 o2 => closeS (dot (o1.Sub o2) (o1.Sub o2)) (n * n * dot (i1.Sub i2) (i1.Sub i2))
+                              (n * n * (dot i1 i1 + dot i2 i2))))
+  | "applytrs" :: ts => do
+      let (_, ts) ← pV3 ts; let (qv, ts) ← pV3 ts; let (qw, ts) ← pFloat ts; let (sc, ts) ← pV3 ts
+      let (m, ts) ← pMesh ts; let (o, _) ← pMesh ts
+      let n := dot qv qv + qw * qw
+      if !(fin n && finV sc) then pure true else
+      pure (forallIO (v3sOf m "Position") (v3sOf o "Position") (fun _ _ => true)
+        (fun i1 o1 i2 o2 =>
+          let dv := sc.MultByVector (i1.Sub i2)
+          closeS (dot (o1.Sub o2) (o1.Sub o2)) (n * n * dot dv dv)
+            (n * n * (mag sc) * (mag sc) * (dot i1 i1 + dot i2 i2))))
+  | "center" :: ts => do
+      let (name, ts) ← pTok ts
+      let (m, ts) ← pMesh ts; let (o, _) ← pMesh ts
+      let ins := v3sOf m name; let outs := v3sOf o name
+      if ins.isEmpty || !(ins.all finV) then pure true else
+      let scale := ins.foldl (fun acc v => max acc (mag v)) 0.0
+      let axis (f : V3 Float → Float) : Bool :=
+        match outs.map f with
+        | [] => false
+        | x :: xs => closeS ((xs.foldl min x + xs.foldl max x) / 2) 0 scale
+      pure (ins.length == outs.length && axis (·.x) && axis (·.y) && axis (·.z))         -- bounding-box midpoint = 0
+  | "normalize" :: ts => do
+      let (name, ts) ← pTok ts
+      let (m, ts) ← pMesh ts; let (o, _) ← pMesh ts
+      let ins := v3sOf m name; let outs := v3sOf o name
+      let L := ins.foldl (fun acc v => max acc v.Length) 0.0
+      if ins.isEmpty || !(ins.all finV) || !(L > 1e-150) then pure true else
+      let Lo := outs.foldl (fun acc v => max acc v.Length) 0.0
+      pure (ins.length == outs.length && closeS Lo 1 1)                                     -- longest vector has length 1
+  | _ => none
+
 /-- `Changed k f input output` of Props/C03 (`translate_spec` … `normalize_spec`; for the normals the
     definition of `smoothNormals` / `flatNormals`): frame untouched AND attribute `k` is exactly the stated
     function of the old array. Given the frame this is: output = the mesh the stated map produces. -/
@@ -83,7 +171,11 @@ def changedOracle (args : List String) : Option Bool :=
 
 /-- one request -> one answer line; `none` = unknown op / malformed -/
 def handle (op : String) (args : List String) : Option String :=
-  if op == "c03.holds.changed_spec" then
+  if op == "c03.holds.post_spec" then
+    match postOracle args with
+    | some b => some (boolStr b)
+    | none => some "false"
+  else if op == "c03.holds.changed_spec" then
     match changedOracle args with
     | some b => some (boolStr b)
     | none => some "false"
